@@ -230,6 +230,25 @@ def finish(ctx, level, level_note="", checker_cmd=None):
     """Aggregate, write evidence, print verdict lines, return exit code."""
     known = [k for k in load_known() if k["property"] == ctx.prop]
     wall = time.time() - ctx.t0
+    # vacuity guard: every obligation family recorded for this property on the unchanged tree (required_obligations.json,
+    # generated by tools/gen_required.py, committed) must be present again -- a check that loses obligations must not pass
+    try:
+        import re as _re
+        req_file = os.path.join(os.path.dirname(os.path.dirname(os.path.abspath(__file__))), "required_obligations.json")
+        required = json.load(open(req_file)).get(ctx.prop, []) if os.path.exists(req_file) else []
+
+        def _fam(n):
+            n = _re.sub(r"\[[^\]]*\]", "", n)
+            n = _re.sub(r"\.(path|n|o)\d+\b", "", n)
+            return _re.sub(r"\.\d+\b", "", n)
+        present = {_fam(o.name) for o in ctx.obs}
+        engine_errors = any(o.status == "error" for o in ctx.obs)
+        missing = [r_ for r_ in required if r_ not in present]
+        if missing and not engine_errors:
+            ctx.add(Ob(ctx.prop + ".guard.required_obligations", "guard", "error", "vacuity-guard", 0.0,
+                       "%d obligation families of this property produced no obligation on this run (and no engine error explains it): %s" % (len(missing), missing[:8])))
+    except Exception as exc:
+        ctx.add(Ob(ctx.prop + ".guard.required_obligations", "guard", "error", "vacuity-guard", 0.0, "guard itself failed: %r" % (exc,)))
     proof_obs = [o for o in ctx.obs if not o.bounded]
     n_ob = len(proof_obs)
     n_dis = sum(1 for o in proof_obs if o.status == "proved")
